@@ -4,13 +4,13 @@ for the branches of the .ts parser loop.  Recorded with `python -m translator.ts
 re-record only after re-validating the model (coq/C18/Model.v) against the new source."""
 PINS = {
     'nf._load_dataset':
-        'sha256:00d580334d4c5de87b3579724850421bab5c84e6457a97ce146881095979acf1',
+        'sha256:a8423d8e50137da1b93b170d62a0576f47168d888002d94367e7b1caeb145e09',
     'nf.load_from_arff_to_dataframe':
-        'sha256:5e4ff69970ef7d835739db343cbf5951318aeaa57f391c17ff962b836e73157e',
+        'sha256:fbfe341bd3c0d7649e1defa71ccfc5edda31c1f9706f3f193c9f696e0506423d',
     'nf.load_from_tsfile_to_dataframe':
-        'sha256:8fc7da0af311d6b7d44bf31ec7ce026e9e37bb97756f724b3be56d68126070b3',
+        'sha256:d812c6e942a3249f843e413db7238ba69158eaec7943c1f49323a114714077e3',
     'nf.load_from_ucr_tsv_to_dataframe':
-        'sha256:171895c2a809d603e8f74b6514ec1cabd6986d657133c1a54e49039982c32550',
+        'sha256:5e71c322548be61687415aa90d228d660aa9fb91abec0f7df87a27b28ffb79b3',
     'nf.write_dataframe_to_tsfile':
-        'sha256:fb7591334aa395d68dc03055c7b03aa28045989441746a7421dee8ee4de087d2',
+        'sha256:22aa1acef3bb26d182a3c8d4969215cc9b9d242dd87d9ae8e4301d2810d2cfb3',
 }
